@@ -5,6 +5,7 @@
 //! * `vseq`    — E3: bounded exhaustive sequence / input enumeration helpers
 //! * `promtext`, `statsd`, `pbwire` — independent parsers used as oracles
 pub mod driver;
+pub mod dsd;
 pub mod loompart;
 pub mod pbwire;
 pub mod promtext;
